@@ -509,6 +509,54 @@ def trr_head_size(ctx):
                 "the first header of a growing file is read when only part of it is on disk", construct=f"TRR_HEAD_SIZE = {short(e, 60)}")
 
 
+def give_up_after_fresh_size(ctx):
+    """The TRR reader gives up on data that is not there yet only on a file size measured AFTER
+    the program was observed finished. A size taken before the poll can be stale: mdrun may write
+    the rest of the frame and exit between the two calls, and a frame that is completely on disk
+    would never be returned. For every `self.stop_read = True` that is decided by a finished
+    process: a getsize() call is evaluated after the poll in the same test (a later operand of the
+    conjunction), or the remaining data is read under a fresh getsize() after the decision."""
+    rid = "R-13.8"
+    f = ctx.tree.func(GROMACS, "GromacsRunner.get_gromacs_frames")
+    fl = flow_of(f)
+    cfg = fl.cfg
+    n = 0
+
+    def is_poll(x):
+        t = ast.unparse(x)
+        if "check_poll" in t or ".poll(" in t:
+            return True
+        if isinstance(x, ast.Name):
+            return any(isinstance(getattr(d, "value", None), ast.AST) and ("check_poll" in ast.unparse(d.value) or ".poll(" in ast.unparse(d.value)) for d, _ in fl.rd(x.id, cfg.entry) ) or any(
+                isinstance(s_, ast.Assign) and isinstance(s_.targets[0], ast.Name) and s_.targets[0].id == x.id and ("check_poll" in ast.unparse(s_.value) or ".poll(" in ast.unparse(s_.value)) for s_ in walk_local(f))
+        return False
+
+    for st in [s_ for s_ in walk_local(f) if isinstance(s_, ast.Assign) and path_of(s_.targets[0]) == "self.stop_read" and isinstance(s_.value, ast.Constant) and s_.value.value is True]:
+        facts = cfg.guards(cfg.node_of(st))
+        pollf = [(e, t) for e, t, bn in facts if isinstance(e, ast.Compare) and any(is_poll(x) for x in [e.left] + e.comparators)]
+        if not pollf:
+            continue
+        n += 1
+        pe = pollf[-1][0]
+        ppos = (pe.lineno, pe.col_offset)
+        later_size = [e for e, t, bn in facts if any(isinstance(c, ast.Call) and dotted(c.func) == "os.path.getsize" for c in ast.walk(e)) and (e.lineno, e.col_offset) > ppos]
+        # or: after the decision the rest of the file is read under a fresh size
+        blk = getattr(st, "_parent", None)
+        after = []
+        for field in ("body", "orelse"):
+            b = getattr(blk, field, None)
+            if isinstance(b, list) and st in b:
+                after = b[b.index(st) + 1:]
+        fresh_after = any(isinstance(c, ast.Call) and dotted(c.func) == "os.path.getsize" for s_ in after for c in ast.walk(s_)) and any(isinstance(c, ast.Call) and last_name(c) == "read_remaining_trr" for s_ in after for c in ast.walk(s_))
+        if later_size or fresh_after:
+            ctx.ok(rid, st, "the reader stops on a finished process only with a file size measured after the poll" + (" (the remaining frames are then read)" if fresh_after else ""))
+        else:
+            ctx.bad(rid, st, "the reader gives up as soon as the process is seen finished, trusting a file size measured before the poll: if mdrun completes the frame and exits between the size check and the poll, a frame that is completely on disk is never returned",
+                    construct="stop_read on poll without a fresh getsize")
+    if n < 2:
+        raise AnalysisError(f"R-13.8: only {n} process-finished stop decisions found in get_gromacs_frames (expected 2)")
+
+
 def line_index_alignment(ctx, f):
     """The role of a line is its enumerate index modulo the block size: every line taken from
     the file advances the index by exactly one *and* is classified in the same iteration. A
@@ -536,6 +584,7 @@ def line_index_alignment(ctx, f):
 def run(ctx):
     ctx.rule("R-13.6", "line-index arithmetic never divides by a block size that still holds its zero initialiser (no exception on a partial first line)", floor=1)
     ctx.rule("R-13.5", "the byte count that gates the first TRR header read covers the largest header (struct formats of read_trr_header, double precision)", floor=1)
+    ctx.rule("R-13.8", "the TRR reader stops on a finished process only with a file size measured after the poll (no frame that is complete on disk is dropped by the exit race)", floor=2)
     ctx.rule("R-13.7", "text readers: every line taken from the file advances the line index once and is classified by it (no `continue`, no extra read inside the line loop)", floor=2)
     ctx.rule("R-13.1", "every parse of current-line text is dominated by a completeness guard (newline / sentinel) whose failing edge returns without committing", floor=6)
     ctx.rule("R-13.2", "the read position is committed only under the frame-complete condition (or the documented lone-newline resync)", floor=3)
@@ -551,10 +600,12 @@ def run(ctx):
         ctx.attempt(zero_block_size, ctx, f)
         ctx.attempt(line_index_alignment, ctx, f)
     ctx.attempt(trr_reader, ctx)
+    ctx.attempt(give_up_after_fresh_size, ctx)
     ctx.attempt(trr_head_size, ctx)
 
 
 VARIANTS = [
+    B("c13-trr-give-up-on-stale-size", GROMACS, "                                if (\n                                    self.check_poll() is not None\n                                    and os.path.getsize(self.trr_file)\n                                    < self.bytes_read + self.data_size\n                                ):", "                                if self.check_poll() is not None:", "R-13.8", control=True, why="seeded C13_e"),
     B("c13-lammps-lone-newline-continue", ENGPARTS, "            reader_class.previous_position = reader_class.current_position\n            reader_class.current_position = reader_class.file_object.tell()\n            return trajectory, box\n        spl = line.split()", "            reader_class.previous_position = reader_class.current_position\n            reader_class.current_position = reader_class.file_object.tell()\n            continue\n        spl = line.split()", "R-13.7", control=True, why="seeded C13_d"),
     B("c13-xyz-skips-comment-line-by-read", ENGPARTS, "        if i % block_size > 1:", "        if i % block_size == 1:\n            reader_class.file_object.readline()\n        if i % block_size > 1:", "R-13.7"),
     B("c13-xyz-atoms-fieldcount-only", ENGPARTS, 'if len(spl) != 4 or line[-1] != "\\n":', "if len(spl) != 4:", "R-13.1", control=True, why="pre-fix D3"),
